@@ -31,8 +31,8 @@ Qed.
 
 Ltac bind_inv H x Hx := apply bind_ok in H; destruct H as [x [Hx H]].
 
-(* the four outcomes a rejected message can produce *)
-Definition okerr (e : err) : Prop := e = EValue \/ e = EDeser \/ e = EType \/ e = EImpossible.
+(* the three outcomes a rejected message can produce (ValueError, DeserializationError, TypeError) *)
+Definition okerr (e : err) : Prop := e = EValue \/ e = EDeser \/ e = EType.
 Definition errs_in {A} (r : res A) : Prop := forall e, r = Err e -> okerr e.
 
 Lemma errs_ok {A} (a : A) : errs_in (Ok a).
@@ -42,9 +42,12 @@ Proof. intros e H. injection H as <-. left. reflexivity. Qed.
 Lemma errs_deser {A} : errs_in (@Err A EDeser).
 Proof. intros e H. injection H as <-. right. left. reflexivity. Qed.
 Lemma errs_type {A} : errs_in (@Err A EType).
-Proof. intros e H. injection H as <-. right. right. left. reflexivity. Qed.
-Lemma errs_impossible {A} : errs_in (@Err A EImpossible).
-Proof. intros e H. injection H as <-. right. right. right. reflexivity. Qed.
+Proof. intros e H. injection H as <-. right. right. reflexivity. Qed.
+(* EImpossible is not one of them *)
+Lemma okerr_not_impossible : ~ okerr EImpossible.
+Proof. intros [H|[H|H]]; discriminate H. Qed.
+Lemma errs_not_impossible {A} (r : res A) : errs_in r -> r <> Err EImpossible.
+Proof. intros Hr H. exact (okerr_not_impossible (Hr _ H)). Qed.
 Lemma errs_bind {A B} (r : res A) (f : A -> res B) :
   errs_in r -> (forall a, errs_in (f a)) -> errs_in (bind r f).
 Proof.
@@ -323,7 +326,7 @@ Proof. intros a b. destruct a, b; cbn [nkind_eqb]; split; intros H; try reflexiv
 Lemma fresh_ok : forall t u k x, fresh t u k = Ok x -> tlookup t u = None.
 Proof.
   intros t u k x H. unfold fresh in H. destruct (tlookup t u) as [k'|]; [|reflexivity].
-  destruct (nkind_eqb k' k); discriminate H.
+  discriminate H.
 Qed.
 
 Lemma fresh_notIn : forall t u k x, fresh t u k = Ok x -> ~ In u (tdom t).
@@ -331,28 +334,43 @@ Proof. intros t u k x H. apply tlookup_None_notIn. exact (fresh_ok _ _ _ _ H). Q
 
 Lemma fresh_errs : forall t u k, errs_in (fresh t u k).
 Proof.
-  intros t u k. unfold fresh. destruct (tlookup t u) as [k'|]; [|apply errs_ok].
-  destruct (nkind_eqb k' k); [apply errs_impossible|apply errs_deser].
+  intros t u k. unfold fresh. destruct (tlookup t u) as [k'|]; [apply errs_deser|apply errs_ok].
 Qed.
 
-(* a UUID that is already defined with another kind *)
-Lemma dup_other_kind : forall t u k k', tlookup t u = Some k' -> k' <> k -> fresh t u k = Err EDeser.
+(* a UUID that is already defined -- with whatever kind -- is a DeserializationError *)
+Lemma dup_rejected : forall t u k k', tlookup t u = Some k' -> fresh t u k = Err EDeser.
+Proof. intros t u k k' H. unfold fresh. rewrite H. reflexivity. Qed.
+
+(* in particular with another kind (the statement that held before the repair of the reader) *)
+Corollary dup_other_kind : forall t u k k', tlookup t u = Some k' -> k' <> k -> fresh t u k = Err EDeser.
+Proof. intros t u k k' H _. exact (dup_rejected t u k k' H). Qed.
+
+(* ... and with the same kind: there is no "merge" of two definitions of one node *)
+Corollary dup_same_kind : forall t u k, tlookup t u = Some k -> fresh t u k = Err EDeser.
+Proof. intros t u k H. exact (dup_rejected t u k k H). Qed.
+
+(* fresh never answers EImpossible *)
+Lemma fresh_never_impossible : forall t u k, fresh t u k <> Err EImpossible.
 Proof.
-  intros t u k k' H Hne. unfold fresh. rewrite H.
-  destruct (nkind_eqb k' k) eqn:E; [|reflexivity].
-  apply nkind_eqb_eq in E. contradiction.
+  intros t u k H. unfold fresh in H. destruct (tlookup t u) as [k'|]; discriminate H.
 Qed.
 
-(* EImpossible: exactly a UUID defined twice with the same kind *)
-Lemma fresh_impossible_iff : forall t u k, fresh t u k = Err EImpossible <-> tlookup t u = Some k.
+(* exact characterisation of the failures of fresh: DeserializationError, exactly on the UUIDs already defined *)
+Lemma fresh_err_iff : forall t u k e,
+  fresh t u k = Err e <-> (e = EDeser /\ exists k', tlookup t u = Some k').
 Proof.
-  intros t u k. unfold fresh. destruct (tlookup t u) as [k'|].
-  - destruct (nkind_eqb k' k) eqn:E.
-    + apply nkind_eqb_eq in E. subst k'. split; reflexivity.
-    + split; intros H; [discriminate H|]. injection H as ->.
-      assert (E' : nkind_eqb k k = true) by (apply nkind_eqb_eq; reflexivity).
-      rewrite E' in E. discriminate E.
-  - split; intros H; discriminate H.
+  intros t u k e. unfold fresh. destruct (tlookup t u) as [k0|].
+  - split.
+    + intros H. injection H as <-. split; [reflexivity|]. exists k0. reflexivity.
+    + intros [-> _]. reflexivity.
+  - split.
+    + intros H. discriminate H.
+    + intros [_ [k' H]]. discriminate H.
+Qed.
+
+Lemma fresh_ok_iff : forall t u k, fresh t u k = Ok tt <-> tlookup t u = None.
+Proof.
+  intros t u k. unfold fresh. destruct (tlookup t u) as [k0|]; split; intros H; try reflexivity; discriminate H.
 Qed.
 
 Lemma resolve_ok : forall t bs ok u,
@@ -522,9 +540,9 @@ Proof.
   apply errs_bind; [apply check_enum_errs|intros _]. apply errs_ok.
 Qed.
 
-(* a rejected message is rejected with ValueError, DeserializationError or TypeError, or (model only) EImpossible *)
+(* a rejected message is rejected with ValueError, DeserializationError or TypeError -- nothing else *)
 Theorem reject_only : forall p e,
-  from_proto p = Err e -> e = EValue \/ e = EDeser \/ e = EType \/ e = EImpossible.
+  from_proto p = Err e -> e = EValue \/ e = EDeser \/ e = EType.
 Proof.
   intros p. change (errs_in (from_proto p)). unfold from_proto.
   apply errs_bind; [apply uuid_errs|intros u].
@@ -616,9 +634,16 @@ Proof.
 Qed.
 
 Theorem load_reject : forall f p e,
-  load f p = Err e -> e = EValue \/ e = EDeser \/ e = EType \/ e = EImpossible.
+  load f p = Err e -> e = EValue \/ e = EDeser \/ e = EType.
 Proof.
   intros f p e H. unfold load in H. apply bind_err in H. destruct H as [H|[r [_ H]]].
   - left. exact (header_reject f e H).
   - exact (reject_only p e H).
 Qed.
+
+(* the reader never answers EImpossible *)
+Corollary from_proto_never_impossible : forall p, from_proto p <> Err EImpossible.
+Proof. intros p H. destruct (reject_only p _ H) as [E|[E|E]]; discriminate E. Qed.
+
+Corollary load_never_impossible : forall f p, load f p <> Err EImpossible.
+Proof. intros f p H. destruct (load_reject f p _ H) as [E|[E|E]]; discriminate E. Qed.
